@@ -1,6 +1,7 @@
 import Zc.Proofs.SurviveHost
 import Zc.Proofs.SurviveComp
 import Zc.Proofs.SurviveRoute
+import Zc.Props.C15RouteQ
 /-! # C15 — survival with the routing and the outgoing queues composed in (C12/C11's reply model)
 
 `Zc.Props.C15`'s composed theorems assume three things about the uninterpreted residue `Rest`:
